@@ -256,7 +256,7 @@ def run_cli(args, cwd, env=None, today=None):
         os.chdir(cwd)
         os.environ.update(_GIT_ENV)
         if env:
-            os.environ.update({k: v for k, v in env.items() if k in ("PATH", "FAKEVCS_DIR", "LC_ALL", "LANG")})
+            os.environ.update({k: v for k, v in env.items() if k in ("PATH", "FAKEVCS_DIR", "LC_ALL", "LANG", "BUMPVER_OLD_VERSION", "BUMPVER_NEW_VERSION")})
         if today is not None:
             bversion.TODAY = today
         try:
